@@ -20,7 +20,9 @@ from .. import core, tlc, validate
 from ..tlaparse import to_json
 from ..world import canonical_dir_bytes
 
-PATHS = {"a": "a", "b": "b é", "s/c": "s/c.dir", "s/t/d": "s/t/d d", "e": ".e"}
+# concrete names: a sibling of directory "s" and of directory "s/t" whose name is the directory's name plus a character
+# that sorts before "/" - there the order of key tuples and the order of joined paths (the canonical one) differ
+PATHS = {"a": "s.a", "b": "b é", "s/c": "s/t.c.dir", "s/t/d": "s/t/d d", "e": ".e"}
 SUBDIRS = {"s": ["s/c", "s/t/d"], "s/t": ["s/t/d"]}
 REV = {v: k for k, v in PATHS.items()}
 
